@@ -131,4 +131,35 @@ theorem C04_witness_type_lost_in_window :
 example : restartView 1 [1, 7] (applyAll {} (history false { wt := 7, state := 0, size := 0 } [{ wt := 7, state := 1, size := 3 }, { wt := 7, state := 2, size := 9 }]))
     = .listed 7 2 9 none := by decide
 
+
+/-- the source's choice (regenerated fact): `findUnit` reads the unit's directory whenever the table does not have the ID -/
+def rescanOfFacts : Bool := decide (Receptor.Facts.crash_findunit = "table;miss:scanForUnit-unconditional;table")
+
+theorem rescan_of_source : rescanOfFacts = true := by decide +kernel
+
+theorem rsteps_disk (steps : List RStep) : ∀ r : Reg, (steps.foldl rstep r).disk = r.disk := by
+  induction steps with
+  | nil => intro r; rfl
+  | cons s rest ih =>
+    intro r
+    simp only [List.foldl_cons]
+    rw [ih]
+    cases s with
+    | drop id => rfl
+    | readd id => simp only [rstep]; split <;> rfl
+
+/-- **known_at_every_moment.** At every moment of the re-registration — after any number of units have been taken out of
+the table and any number put back — a unit that has a readable record on disk is found. -/
+theorem known_at_every_moment (steps : List RStep) (r : Reg) (id : Nat) (h : id ∈ r.disk) :
+    findUnit true (steps.foldl rstep r) id = true := by
+  have hd := rsteps_disk steps r
+  simp only [findUnit, hd, Bool.true_and, Bool.or_eq_true, List.contains_iff_mem]
+  exact Or.inr (by simpa using h)
+
+/-- Witness: without the read on a miss, a unit is unknown between being taken out and being put back -/
+theorem C04_witness_unknown_during_registration :
+    findUnit false ([RStep.drop 7].foldl rstep { active := [7], disk := [7] }) 7 = false
+    ∧ findUnit true ([RStep.drop 7].foldl rstep { active := [7], disk := [7] }) 7 = true := by decide
+
+
 end Receptor.Crash
